@@ -20,6 +20,7 @@ type vfJBStep struct {
 	N  uint16 `json:"n"`
 	Ts uint32 `json:"ts"` // timestamp offset; the packet carries TsBase + Ts (mod 2^32)
 	B  bool   `json:"b"`
+	K  int    `json:"k"` // qbulk: number of packets pushed (priorities n, n-1, ... - each lands at the head of the list)
 }
 
 type vfJBScript struct {
@@ -174,6 +175,15 @@ func vfRunPQ(t *testing.T, sc *vfJBScript, out *vfWriter) {
 			pkt, id := tr.packet(st.N, st.Ts)
 			queue.Push(pkt, st.N)
 			ev["id"] = id
+		case "qbulk": // one event for k pushes in descending priority order (a consumer that has stalled for a long time)
+			for i := 0; i < st.K; i++ {
+				pkt, id := tr.packet(st.N-uint16(i), st.Ts) //nolint:gosec // wraps as the priorities do
+				queue.Push(pkt, st.N-uint16(i))             //nolint:gosec
+				if i == 0 {
+					ev["id"] = id
+				}
+			}
+			ev["k"] = st.K
 		case "qpop":
 			pkt, err := queue.Pop()
 			tr.result(ev, pkt, err)
